@@ -45,6 +45,9 @@ class C08(Prop):
             zs = [y if rng.random() < 0.35 else Fraction(rng.randint(-8, 8), 2) for y in ys]
             f = rng.choice(FUNCS)
             lv = rng.choice(ic.DYADIC_LEVELS[:9] + ic.DECIMAL_LEVELS[:7])
+            if rng.random() < 0.08:
+                # extreme levels (2^-30, 2^-45, 1 - 2^-30): a formula that subtracts nearly equal numbers loses them
+                lv = rng.choice(["1/1073741824", "1/35184372088832", "1073741823/1073741824", "1e-9", "3e-10", "1e-12", "0.999999999"])
             r = rng.random()
             if r < 0.06:
                 lv = rng.choice(["0", "1", "-1", "1.5", "2"])
@@ -67,8 +70,10 @@ class C08(Prop):
         for k in range(N // 5):
             # observations and predictions in (different) narrow / unsigned / single-precision dtypes
             n = rng.randint(1, 8)
-            ydt = rng.choice(["int64", "int32", "uint8", "uint16", "uint32", "bool", "float32", "int8", "int16"])
-            zdt = rng.choice(["float32", "float32", "uint8", "uint32", "int64", "bool", "float64", "int8", "int16"])
+            ydt = rng.choice(["int64", "int32", "uint8", "uint16", "uint32", "bool", "float32", "int8", "int16", ">u2", ">i2", ">u4", ">u8", ">f8"])
+            zdt = rng.choice(["float32", "float32", "uint8", "uint32", "int64", "bool", "float64", "int8", "int16", ">u2", ">i2", ">u4", ">u8"])
+            if ydt.startswith(">") and rng.random() < 0.7:
+                zdt = ydt  # both arrays in the same non-native byte order (files read from another platform)
             top = 1 if "bool" in (ydt, zdt) else (100 if "int8" in (ydt, zdt) else 200)
             ysf = [float(rng.randint(0, top)) for _ in range(n)]
             if zdt in ("float32", "float64") and top > 1:
@@ -166,7 +171,8 @@ class C08(Prop):
         if case["stream"] not in ("pairs", "reuse"):
             return None
         lv = case["level"]
-        lve = Fraction(lv) if lv in ("0", "1", "-1", "1.5", "2") else ic.level_exact(lv)
+        # the identification function computes with the float level itself (exactly that binary number)
+        lve = Fraction(lv) if lv in ("0", "1", "-1", "1.5", "2") else Fraction(ic.level_float(lv))
         return {"op": "ident", "f": case["f"], "level": enc(lve), "y": enc_list(Fraction(v) for v in case["y"]),
                 "z": enc_list(Fraction(v) for v in case["z"])}
 
@@ -177,7 +183,7 @@ class C08(Prop):
             return None if io["err"] == mo["err"] else f"exception class differs: {io['err']} vs {mo['err']}"
         vm = dec_list(mo["v"])
         for i, (a, b) in enumerate(zip(io["v"], vm)):
-            if not (close(a, b, 1e-12, 1e-12) and (a == 0) == (b == 0) and (a > 0) == (b > 0)):
+            if not (close(a, b, 1e-12, 1e-300) and (a == 0) == (b == 0) and (a > 0) == (b > 0)):
                 return f"V[{i}] = {a!r}, model {float(b)!r}"
         return None
 
